@@ -1,5 +1,12 @@
 ------------------------------ MODULE MC_SockLife ------------------------------
 EXTENDS SockLife
+AllOuts == {"ok", "fail", "socket", "bind", "listen", "unbound", "connect", "nolistener", "isconn", "eagain", "dupfail", "eintr",
+            "bad", "epipe", "reset", "badfd", "notconn", "peerdead"}
+\* the mode configuration: the kernel's own answers and the failures of dup(), no other injected failure
+ModeOuts == {"ok", "fail", "eagain", "dupfail", "isconn"}
+ModeOutsThorough == {"ok", "fail", "unbound", "nolistener", "isconn", "eagain", "dupfail", "bad"}
+NoSlots == {}
+AllSlots == {"lis", "cli", "acc", "cp"}
 ObsEmit(op, args, ret, post) ==
     PrintT(ToJson([pre |-> Pre, op |-> op, args |-> args, ret |-> ret, post |-> post]))
 ObsNone(op, args, ret, post) == TRUE
